@@ -27,6 +27,7 @@ class World:
         self.held_mode = False
         self.held = {}
         self.phase = 0
+        self.iter_forms = False      # pass sequence arguments as one-shot iterators / generators
 
     def add(self, t):
         self.index[id(t)] = len(self.ts)
@@ -99,7 +100,7 @@ ARG_TASK_POS = {'set_parent': [2], 'append': [2], 'insert': [2], 'remove': [2], 
 RECV_TASK_POS = {'set_parent': [1], 'set_preds': [1], 'set_succs': [1], 'lshift': [1], 'rshift': [1],
                  'pred_append': [1], 'pred_remove': [1], 'succ_append': [1], 'succ_remove': [1],
                  'pred_remove_all': [1], 'succ_remove_all': [1]}
-OWN_POS = {'set_children': 1, 'floordiv': 1, 'append': 1, 'insert': 1, 'remove': 1, 'move': 1, 'sort': 1,
+OWN_POS = {'adopt_children': 1, 'set_children': 1, 'floordiv': 1, 'append': 1, 'insert': 1, 'remove': 1, 'move': 1, 'sort': 1,
            'reorder': 1, 'remove_all': 1, 'list_lshift': 1, 'list_rshift': 1, 'bulk_parent': 1}
 
 
@@ -116,6 +117,9 @@ def concretise(op, n, nw, shift=0, last_only=False):
         op[OWN_POS[kind]] = (o % n) if o >= 0 else -((-o - 1) % nw) - 1
     if kind in ('wbs_remove', 'wbs_remove_all'):
         op[1] = op[1] % nw
+    if kind == 'adopt_children':
+        o2 = op[2]
+        op[2] = ((o2 + shift) % n) if o2 >= 0 else -((-o2 - 1) % nw) - 1
     if kind in ARG_TASK_POS:
         for p in ARG_TASK_POS[kind]:
             if op[p] is not None:
@@ -200,15 +204,29 @@ def run_op(world, op):
     def seq(s):
         return [None if x is None else ts[x] for x in s]
 
+    def arg(lst):
+        # the documented argument type is Iterable: a one-shot iterator is as good as a list
+        return iter(list(lst)) if world.iter_forms else list(lst)
+
     if k == 'set_parent':
         T(op[1]).parent = None if op[2] is None else T(op[2]); return None
     if k == 'set_children':
         o = own(op[1]); s = seq(op[2])
-        val = s[0] if (len(s) == 1 and len(op) > 3 and op[3] == 'single') else (tuple(s) if len(op) > 3 and op[3] == 'tuple' else s)
+        val = s[0] if (len(s) == 1 and len(op) > 3 and op[3] == 'single') else (tuple(s) if len(op) > 3 and op[3] == 'tuple' else
+                                                                                   (x for x in s) if world.iter_forms else s)
         if op[1] >= 0:
             o.children = val
         else:
             o.roots = val
+        return None
+    if k == 'adopt_children':
+        o = own(op[1])
+        src = own(op[2])
+        live = src.children if op[2] >= 0 else src.roots       # the live list object itself is the value
+        if op[1] >= 0:
+            o.children = live
+        else:
+            o.roots = live
         return None
     if k == 'append':
         return chl(op[1]).append(T(op[2]))
@@ -223,17 +241,17 @@ def run_op(world, op):
             kw['before'] = T(op[3])
         if op[4] is not None:
             kw['after'] = T(op[4])
-        return l.move(s if len(s) != 1 else s[0], **kw)
+        return l.move((arg(s) if len(s) != 1 else s[0]), **kw)
     if k == 'sort':
         return chl(op[1]).sort(list(op[2]) if isinstance(op[2], tuple) else op[2], reverse=op[3])
     if k == 'reorder':
-        return chl(op[1]).reorder(list(op[2]))
+        return chl(op[1]).reorder(arg(op[2]))
     if k == 'remove_all':
         return chl(op[1]).remove_all(id_in_=list(op[2]))
     if k == 'set_preds':
-        s = seq(op[2]); T(op[1]).predecessors = s[0] if len(s) == 1 and len(op) > 3 and op[3] == 'single' else s; return None
+        s = seq(op[2]); T(op[1]).predecessors = s[0] if len(s) == 1 and len(op) > 3 and op[3] == 'single' else arg(s); return None
     if k == 'set_succs':
-        s = seq(op[2]); T(op[1]).successors = s[0] if len(s) == 1 and len(op) > 3 and op[3] == 'single' else s; return None
+        s = seq(op[2]); T(op[1]).successors = s[0] if len(s) == 1 and len(op) > 3 and op[3] == 'single' else arg(s); return None
     if k == 'pred_append':
         return preds(op[1]).append(T(op[2]))
     if k == 'pred_remove':
@@ -279,7 +297,7 @@ def run_op(world, op):
     raise AssertionError('unknown op %r' % (op,))
 
 
-HIER = {'set_parent', 'set_children', 'floordiv', 'append', 'insert', 'remove', 'move', 'sort', 'reorder',
+HIER = {'adopt_children', 'set_parent', 'set_children', 'floordiv', 'append', 'insert', 'remove', 'move', 'sort', 'reorder',
         'remove_all', 'bulk_parent', 'wbs_remove', 'wbs_remove_all', 'new_task'}
 DEPS = {'set_preds', 'set_succs', 'lshift', 'rshift', 'pred_append', 'pred_remove', 'succ_append',
         'succ_remove', 'pred_remove_all', 'succ_remove_all', 'list_lshift', 'list_rshift'}
@@ -392,6 +410,7 @@ def run_history(case, skip=None):
     world = World(case['ids'], case.get('nw', 3), case.get('names'), case.get('ranks'))
     world.held_mode = bool(case.get('held'))
     world.phase = 1 if case.get('held') == 2 else 0
+    world.iter_forms = bool(case.get('iter'))
     rep.world = world
     nw = len(world.ws)
     g = snapshot(world)
